@@ -50,17 +50,28 @@ def run(res, tier):
                            'and to the side that owns the queue', floor=3)
     f = fx.fn1(TH + '::SendMessageAux')
     add = [c for c in f.walk() if c['k'] == 'CXXMemberCallExpr' and (c.get('q') or '').endswith('Queue::AddTail') and any(x.get('q') == MSGS for x in c.walk())]
-    firsts = [n for n in f.walk() if n['k'] == 'BinaryOperator' and n.get('op') == '=' and any((x.get('q') or '').endswith('Queue::GetNumItems') for x in n['ch'][1].walk() if x.is_call())
-              and any(x.get('v') == 1 for x in n['ch'][1].walk())]
     sigs = [c for c in f.walk() if c.is_call() and (c.get('q') or '') in (TH + '::SignalInternalThread', TH + '::SignalOwner')]
-    if not add or not firsts or len(sigs) < 2:
-        raise AnalysisBroken('SendMessageAux: enqueue / first-test / signal calls not found')
-    flagd = A.strip_casts(firsts[0]['ch'][0]).get('d')
+    if not add or len(sigs) < 2:
+        raise AnalysisBroken('SendMessageAux: enqueue / signal calls not found')
+    # the flag that decides whether to signal = the local tested on an edge dominating the signal calls; its definition(s) are the "was this the first Message?" test
+    flagd = None
+    for (c_, t_) in C.guards_of_block(f, P.pos_of(f, sigs[0])[0]):
+        cn_ = A.strip_casts(f.nodes[c_])
+        if cn_['k'] == 'DeclRefExpr' and 'd' in cn_ and t_:
+            flagd = cn_['d']
+    firsts = []
+    for n in f.walk():
+        if n['k'] == 'BinaryOperator' and n.get('op') == '=' and A.strip_casts(n['ch'][0]).get('d') == flagd and flagd is not None:
+            firsts.append(n)
+        elif n['k'] == 'VarDecl' and n.get('d') == flagd and n['ch'] and flagd is not None:
+            firsts.append(n)
+    if flagd is None or not firsts:
+        raise AnalysisBroken('SendMessageAux: the flag guarding the signal calls / its definition was not found')
     flow = cl.flow(f)
     def gids(n):
         p = P.pos_of(f, n)
         return set(flow._transfer(p[0], flow.IN[p[0]], upto=p[1]))
-    same = bool(gids(add[0]) & gids(firsts[0])) and C.dominates(f, add[0]['i'], firsts[0]['i'])
+    same = all(bool(gids(add[0]) & gids(fd)) and C.dominates(f, add[0]['i'], fd['i']) and any(x.get('q') == MSGS for x in fd.walk()) for fd in firsts)
     res.ob('SEND-ORDER', f.where(add[0]), 'AddTail precedes the first-Message test and both run under one guard on the queue lock', same, function=f.q,
            how='AddTail line %s, test line %s, guard %s' % (add[0].get('l'), firsts[0].get('l'), sorted(gids(add[0]))), key='SEND-ORDER|%s|under-lock' % f.q,
            message='SendMessageAux decides whether to signal outside the critical section of the enqueue (or before it): two senders can both see a non-empty queue and nobody signals (lost wake-up)')
@@ -162,6 +173,24 @@ def run(res, tier):
     ok = bool(snd) and bool(jn) and all(P.must_precede(f, snd, j) for j in jn)
     res.ob('LIFECYCLE', f.where(), 'the quit request (NULL MessageRef) is sent before waiting for the internal thread to exit', ok, function=f.q, key='LIFECYCLE|%s|quit-before-join' % f.q,
            message='ShutdownInternalThread can wait for the internal thread without having told it to quit: the join never returns')
+    # the wake-up sockets and the flag that says they exist change together: a restart after a shutdown re-creates them only if the flag was cleared with them
+    n_sock = 0
+    for g in sorted((g for g in fx.funcs.values() if g.full and g.cls == TH), key=lambda g: g.line):
+        if g.q.split('::')[-1] in ('(ctor)', '(dtor)'):
+            continue
+        rs = [c for c in g.walk() if c['k'] == 'CXXMemberCallExpr' and (c.get('q') or '').endswith('::Reset') and c.receiver() is not None and A.strip_casts(c.receiver()).get('n') == '_messageSocket']
+        # only the function that closes BOTH ends (index not a constant); the internal thread resetting just its own end on exit (to wake the owner with EOF) is a different event
+        rs = [c for c in rs if not any(x['k'] == 'ArraySubscriptExpr' and 'v' in A.strip_casts(x['ch'][1]) for x in c.receiver().walk())]
+        if not rs:
+            continue
+        n_sock += 1
+        clr = [n for n in g.walk() if n['k'] == 'BinaryOperator' and n.get('op') == '=' and A.strip_casts(n['ch'][0]).get('n') == '_messageSocketsAllocated' and A.strip_casts(n['ch'][1]).get('v') in (0, False)]
+        okc = bool(clr) and all(P.must_follow(g, r, clr)[0] for r in rs)
+        res.ob('LIFECYCLE', g.where(rs[0]), '%s: resetting the wake-up sockets is followed by _messageSocketsAllocated = false' % g.q.split('::')[-1], okc, function=g.q, key='LIFECYCLE|%s|sockets-flag' % g.q,
+               message='%s closes the wake-up sockets but leaves _messageSocketsAllocated set: after a shutdown the next StartInternalThread() skips creating the socket pair, the restarted thread has no '
+                       'wake-up socket and never receives the Messages sent to it' % g.q)
+    if n_sock < 1:
+        raise AnalysisBroken('LIFECYCLE: no function resets the wake-up sockets')
     f = fx.fn1(TH + '::StartInternalThread')
     peek = [v for v in f.walk() if v['k'] == 'VarDecl' and v['ch'] and any(x.get('q') == MSGS for x in v['ch'][0].walk()) and any((x.get('q') or '').endswith('::HasItems') for x in v['ch'][0].walk() if x.is_call())]
     sig = P.calls(f, r'::SignalInternalThread$')
